@@ -1,2 +1,74 @@
-(* C08 -- placeholder *)
-From Sylt Require Import Types.Tc.
+(* C08 -- Type annotations are optional and never change the generated code.
+   Only pinned statements, `exact`, Examples by vm_compute, and Print Assumptions. *)
+From Coq Require Import String List NArith ZArith PArith Bool.
+From Sylt Require Import Syntax.Resolved Types.TyGraph Types.Tc Back.IR Back.Emit Types.Erasure.
+Import ListNotations.
+Local Open Scope string_scope.
+
+(* The type checker is only a judge: the lowering receives exactly the statements the checker was given. *)
+Theorem C08_checker_does_not_rewrite : forall {L} (lower : resolved -> L) fuel r lua,
+  compile_after_order lower fuel r = COk lua -> lua = lower r.
+Proof. intros L. exact (@Erasure.checker_does_not_rewrite L). Qed.
+
+(* The lowering to IR and the emitted Lua text do not depend on any type annotation: programs that are
+   equal once every `ty` component is replaced by one fixed type give the same output. *)
+Theorem C08_lower_ignores_annotations : forall fuel r, IR.lower fuel (strip r) = IR.lower fuel r.
+Proof. exact Erasure.lower_ignores_annotations. Qed.
+
+Theorem C08_backend_ignores_annotations : forall fuel req r1 r2,
+  same_modulo_annotations r1 r2 -> Emit.backend fuel req r1 = Emit.backend fuel req r2.
+Proof. exact Erasure.backend_ignores_annotations. Qed.
+
+(* C08_bytes: two variants that differ only in annotations, both accepted: byte-identical Lua *)
+Theorem C08_bytes : forall fuel_tc fuel req r1 r2 out1 out2,
+  same_modulo_annotations r1 r2 ->
+  compile_after_order (Emit.backend fuel req) fuel_tc r1 = COk out1 ->
+  compile_after_order (Emit.backend fuel req) fuel_tc r2 = COk out2 ->
+  out1 = out2.
+Proof. exact Erasure.C08_bytes. Qed.
+
+(* every erasure of (any subset of) ground annotations on variable definitions, parameters and return types is
+   such a variant *)
+Theorem C08_erase_same_modulo : forall sel r, same_modulo_annotations (erase sel r) r.
+Proof. exact Erasure.erase_same_modulo. Qed.
+
+Theorem C08_bytes_erase : forall sel fuel_tc fuel req r out1 out2,
+  compile_after_order (Emit.backend fuel req) fuel_tc r = COk out1 ->
+  compile_after_order (Emit.backend fuel req) fuel_tc (erase sel r) = COk out2 ->
+  out1 = out2.
+Proof. exact Erasure.C08_bytes_erase. Qed.
+
+(* Acceptance: erasing ground annotations keeps a program accepted.  STATED ONLY (not proved); evaluated by
+   the oracle of the check on the real compiler.  For non-ground annotations it is false (known finding
+   C08-call-through-unknown-field). *)
+Definition C08_accept_ground_statement : Prop := Erasure.C08_accept_ground_statement.
+
+(* ---- non-vacuity: start :: fn do x: int = 1 + 2 end, and the same with `x := 1 + 2` *)
+Definition sp0 : span := mkSpan 0 1 1 1 2.
+Definition spl (l : N) : span := mkSpan 0 l l 1 2.
+Definition annotated : resolved :=
+  mkResolved [mkVar 0 "start" sp0 true Const; mkVar 1 "x" (spl 2) false Mutable]
+             [SDefinition "start" 0 Const (TImplied sp0)
+                (EFunction "lambda" [] (TResolved BVoid sp0)
+                   [SDefinition "x" 1 Mutable (TResolved BInt (spl 2))
+                      (EBinOp Add (EInt 1 (spl 2)) (EInt 2 (spl 2)) (spl 2)) (spl 2)] false sp0) sp0].
+
+Example C08_example_erased_differs : erase (fun _ => true) annotated <> annotated.
+Proof. vm_compute. discriminate. Qed.
+
+Example C08_example_both_accepted :
+  typecheck 40 annotated = TyGraph.Ok tt /\ typecheck 40 (erase (fun _ => true) annotated) = TyGraph.Ok tt.
+Proof. split; vm_compute; reflexivity. Qed.
+
+Example C08_example_same_bytes :
+  exists out, compile_after_order (Emit.backend 100 None) 40 annotated = COk out /\
+              compile_after_order (Emit.backend 100 None) 40 (erase (fun _ => true) annotated) = COk out /\
+              String.length (match out with IR.Ok s => s | _ => "" end) <> 0.
+Proof. eexists. split; [vm_compute; reflexivity|]. split; [vm_compute; reflexivity|]. vm_compute. discriminate. Qed.
+
+Print Assumptions C08_checker_does_not_rewrite.
+Print Assumptions C08_lower_ignores_annotations.
+Print Assumptions C08_backend_ignores_annotations.
+Print Assumptions C08_bytes.
+Print Assumptions C08_erase_same_modulo.
+Print Assumptions C08_bytes_erase.
